@@ -253,8 +253,13 @@ def make_trace(tid, rng, nops=25, **opt):
         if v == "se":
             gtes = 64
         gbytes = grain * 512
-    elif opt.get("many"):  # more grain tables than the 128-entry table cache holds
+    elif opt.get("many") in ("big", True):  # more grain tables than the 128-entry table cache holds
         v, grain, gtes, ng = rng.choice(["hosted", "footer"]), 8, 4, rng.randrange(600, 800)
+        gbytes = grain * 512
+    runs = opt.get("many") == "runs"
+    if runs:  # long runs of each kind of grain: 1 MiB grains (4 KiB grains and runs of several hundred for SE-sparse)
+        v = rng.choice(["hosted", "footer", "cowd", "se"])
+        grain, gtes, ng = (8, 64 * rng.choice([1, 4]), rng.randrange(2000, 3000)) if v == "se" else (2048, 4096 if v == "cowd" else rng.choice([512, 100]), rng.randrange(48, 72))
         gbytes = grain * 512
     npos = ng + 2
     fid, csalt = rng.randrange(0, 0x90), rng.randrange(1, 1 << 18) * 4096    # identity of this image (pattern file id, compressed-unit salt)
@@ -266,8 +271,12 @@ def make_trace(tid, rng, nops=25, **opt):
     for _ in range(ng):
         k = rng.choice(kinds + ["D"])
         ents.append((k, pos.pop(0)) if k == "D" else (k, 0))
+    if runs:
+        plan = diskprop.run_plan(rng, ng, kinds + ["Dr"], *((520, 700) if v == "se" else (17, 30)))
+        pp, _ = diskprop.run_positions(plan, first=1)
+        ents = [("D", pp[i]) if k in ("D", "Dr") else (k, 0) for i, k in enumerate(plan)]
     ngt = -(-ng // gtes)
-    present = [rng.random() < 0.85 for _ in range(ngt)]
+    present = [runs or rng.random() < 0.85 for _ in range(ngt)]
     for r in range(ng):
         if not present[r // gtes]:
             ents[r] = ("U", 0)
@@ -290,7 +299,10 @@ def make_trace(tid, rng, nops=25, **opt):
     s = b.open()
     fresh = b.open()
     rec = record.Recorder(s, cap_b, probe=fresh.readoffset, align=opt.get("align"))
-    record.random_ops(rec, rng, cap_b, nops, unit=gbytes, big=min(40 * gbytes + 4096, 2 << 20), sectors_fn=s.read_sectors, ssize=512)
+    if runs:
+        diskprop.whole_disk_ops(rec, rng, cap_b, gbytes, sectors_fn=s.read_sectors)
+        nops = 6
+    record.random_ops(rec, rng, cap_b, nops, unit=gbytes, big=(cap_b + 4096) if runs else min(40 * gbytes + 4096, 2 << 20), sectors_fn=s.read_sectors, ssize=512)
     comp = v == "stream"
     timg = {"class": "cowd" if v == "cowd" else "se" if v == "se" else "sparse", "gtes": gtes, "cb": 1, "cap": ng,
             "gd": [bool(x) for x in present], "t": [("C" if (comp and k == "D") else k) for k, _ in ents], "p": [q for _, q in ents], "parent": False}
